@@ -1,7 +1,7 @@
 (* run_line: one case line in, one result line out.  Evaluated by the extracted OCaml driver
    (volume) and inside coqc by vm_compute (cross-check of extraction and driver). *)
 From Coq Require Import Strings.String.
-From BP7 Require Import Base.Prelude Base.Decimal Model.Hex Model.DtnTime Cbor.Item Spec.CrcSpec Spec.Rfc9171 Model.Types Model.Encode Model.Decode Run.Proto Run.BundleIO Run.RunClock Run.RunOps Run.RunEid Run.RunSec Run.RunJson Run.RunCorrupt Run.RunAdmin Run.RunFfi Run.RunFault Run.RunId Run.RunCli.
+From BP7 Require Import Base.Prelude Base.Decimal Model.Hex Model.DtnTime Cbor.Item Spec.CrcSpec Spec.Rfc9171 Model.Types Model.Encode Model.Decode Run.Proto Run.BundleIO Run.RunClock Run.RunOps Run.RunApi Run.RunEid Run.RunSec Run.RunJson Run.RunCorrupt Run.RunAdmin Run.RunFfi Run.RunFault Run.RunId Run.RunCli.
 
 Definition show_res {A} (show : A -> list byte) (r : res A) : list byte :=
   match r with
@@ -141,6 +141,8 @@ Definition run_cmd (m : ovf_mode) (cmd : tok) (args : list tok) : list byte :=
   else if tok_is cmd "SCHEDP" then run_sched_pinned args
   else if tok_is cmd "VALIDATE" then run_validate args
   else if tok_is cmd "OPS" then run_ops m args
+  else if tok_is cmd "OPSA" then run_opsa m args
+  else if tok_is cmd "API" then run_api m args
   else if tok_is cmd "DEC" then run_dec args
   else if tok_is cmd "DECA" then S_ "NA"        (* allocation measurement: implementation only *)
   else if tok_is cmd "ENC" then run_enc args
